@@ -83,6 +83,58 @@ def main(chk):
                     if q and shape in ('h-r-r',) and n > 2: continue
                     jobs.append((r_family, (mir, name, mode, n, hist, cont, shape, chk.seed, to), {}))
     chk.add(run_jobs(jobs))
+    hs = []
+    for name in ALL:
+        mode = 'scalar' if IND[name]['scalar'] else 'bar'
+        for n in ((1, 2) if q else (1, 2, 3)):
+            if IND[name]['np'] == 0 and n > 1: continue
+            hs.append(k_harness(name, mode, n, chk.seed))
+    chk.add(kani.run_family_set('C04', hs, jobs=14, timeout_s=240 if q else 1800))
     chk.assumptions += ['engine R: histories and continuations are finite reals (NaN/inf histories are engine K\'s part)',
                         'continuation length n+2 flushes the window']
     chk.notes += ['histories longer than n+2 operations', 'periods above the bound']
+
+# ------------------------------------------------------------------------------------------------
+# Engine K: histories with NaN / +-inf / extremes, then reset, then a fixed finite continuation
+from vlib import kani
+from vlib.kani import KB, KOps
+
+
+def cont_values(n, seed):
+    base = [1.5, 2.25, 0.75, 3.0, 1.25, 2.5, 0.5, 1.75, 2.0, 3.5]
+    k = seed % len(base)
+    return (base[k:] + base[:k])[:n + 2]
+
+
+def k_harness(name, mode, n, seed):
+    per = specs(name, n)
+    b = KB('c04_hist_%s_%s_n%d' % (name.lower(), mode, n), unwind=max(per + [1]) + 3, stub_sqrt=False,
+           family='K:C04 %s %s periods=%s: arbitrary-f64 history, reset, finite continuation == fresh' % (name, mode, per),
+           bounds=dict(engine='K', indicator=name, input=mode, periods=per, history='%d inputs, every f64 bit pattern (NaN, +-inf, +-f64::MAX, subnormals)' % (n + 1),
+                       continuation='%d fixed finite inputs' % (n + 2)))
+    k = KOps(b)
+    k.new('a', name, per)
+    for i in range(n + 1): k.feed('a', mode, 'any', 'h%d' % i)
+    k.reset('a')
+    k.new('f', name, per)
+    cv = cont_values(n, seed)
+    pairs = []
+    for j, x in enumerate(cv):
+        pol = ('lit', x) if mode == 'scalar' else [('lit', x), ('lit', x + 0.5), ('lit', x - 0.25), ('lit', x + 0.125), ('lit', 10.0 + j)]
+        oa = k.feed('a', mode, pol); of = k.feed('f', mode, pol)
+        pairs.append((oa, of))
+        b.emit('assert!(same(%s, %s), "output after reset differs from a fresh instance");' % (oa, of))
+
+    def confirm(vals):
+        ops = k.concrete(vals)
+        for prof in ('dev', 'release'):
+            lines, outs = kani.native_ops(ops, prof)
+            oa = [o for op, o in zip(ops, outs) if op[0] == 'feed' and op[1] == 'a'][-len(cv):]
+            of = [o for op, o in zip(ops, outs) if op[0] == 'feed' and op[1] == 'f']
+            for i, (x, y) in enumerate(zip(oa, of)):
+                if x == 'panic' or y == 'panic': return True, lines, 'native panic'
+                if not all(kani.same_f(p, q) for p, q in zip(x, y)):
+                    return True, lines, 'continuation step %d: reset instance returns %r, fresh instance %r (%s profile)' % (i + 1, x, y, prof)
+        return False, lines, 'native outputs agree'
+    b.confirm = confirm
+    return b
